@@ -21,6 +21,8 @@ DATASETS = {
     'zeros5': [b'a', b'a\x00', b'ab', b'b', b'b\x00\x00'],
     'plain3': [b'k1', b'k2', b'k3'],
     'many60': [b'm%03d' % i + (b'\x00' if i % 7 == 0 else b'') for i in range(60)],
+    # a population large enough for "large population / small cohort" code paths (N > 10000, cohort <= N // 50)
+    'big12000': [b'g%05d' % i + (b'\x00' if i % 97 == 0 else b'') for i in range(12000)],
 }
 MAX_ROUND = 5
 
@@ -355,6 +357,8 @@ def plan(ctx):
                       'history-dependent answer, which is why whole histories (not merged states) are executed']
   hc = []
   for name, ids in DATASETS.items():
+    if len(ids) > 1000:
+      continue
     for impl in ('mem', 'sql', 'sub_dup'):
       for seed in (0, 1, 7):
         for k in (range(1, len(ids) + 1) if len(ids) < 10 else (1, 7, len(ids) - 1, len(ids))):
@@ -368,10 +372,16 @@ def plan(ctx):
   for name, impl in (('zeros5', 'mem'), ('zeros5', 'sql'), ('many60', 'mem')):
     hc.append({'dataset': name, 'impl': impl, 'seed': ctx.seed, 'k': 3, 'depth': 46,
                'ops': [['sample']] * 40 + [['set', 2]] + [['sample']] * 5})
+  # more than 64 / 128 consecutive rounds on one sampler object, then jumps of exactly 64 / 128
+  hc.append({'dataset': 'plain3', 'impl': 'mem', 'seed': ctx.seed, 'k': 2, 'depth': 270,
+             'ops': [['sample']] * 135 + [['set', 3]] + [['sample']] + [['set', 67]] + [['sample']] + [['set', 131]] + [['sample']] * 2})
+  # large population, small cohort: sequential rounds, a repeat, jumps backward and forward
+  hc.append({'dataset': 'big12000', 'impl': 'mem', 'seed': ctx.seed, 'k': 200, 'depth': 12,
+             'ops': [['sample']] * 4 + [['set', 1]] + [['sample']] * 2 + [['set', 0]] + [['sample']] + [['set', 5]] + [['sample']]})
   ctx.pmap('histories', hc, chunk=1)
   sc = [{'dataset': name, 'impl': impl, 'k': k, 'buffers': [1, 2, len(ids) + 1], 'stream_seeds': [0, 3],
          'max_start': 4}
-        for name, ids in DATASETS.items() for impl in ('mem', 'sql')
+        for name, ids in DATASETS.items() if len(ids) <= 1000 for impl in ('mem', 'sql')
         for k in (range(1, len(ids) + 1) if len(ids) < 10 else (7, len(ids)))]
   ctx.pmap('streaming', sc, chunk=2)
   ctx.run('random_states', [{'pairs': [[0, 0], [0, 1], [7, 1]]}, {'pairs': [[3, 2], [3, 5], [4, 2], [3, 0]]}])
